@@ -254,6 +254,11 @@ def run(w, rep, tier):
         check_initialize(w, rep, fs["initialize"])
     if "predict" in fs:
         check_predict(w, rep, fs["predict"], mod)
+    # initialize() returns SO3Mrp.from_Matrix(triad) = from_Quat(SO3Quat.from_Matrix(.)): "exactly the attitude that produced
+    # the measurements, never NaN" needs every Shepperd selection to be a right inverse AND to divide by the largest pivot
+    # (rules shared with C07; seeded C11-4 flipped the innermost selector: NaN with error code 0 for a 180 degree yaw)
+    from .c07 import check_from_matrix
+    check_from_matrix(w, rep, R="C11.valid", RV="C11.valid", RS="C11.valid")
     rep.floor("C11.gate", 9)
     rep.floor("C11.codes", 4)
     rep.floor("C11.valid", 6)
